@@ -34,7 +34,9 @@ CHECKS["C19"] = dict(
     rule=("rapid builds a function `func f(a T1, ...) R` (0-3 parameters, all ten numeric types) from a typed AST: literals, parameters, locals, "
           "stateful variables, unary -/not, + - * / % ^, comparisons, and/or, casts between all numeric types (depth <= 4), local/stateful declarations, "
           "(compound) assignment, if/else-if/else with early return, range loops (1-3 arguments), counted conditional and infinite loops with "
-          "break/continue (<= 12 statements); 3-12 argument vectors drawn from per-type boundary values (min, max, -1, 0, 1, sign and width boundaries, "
+          "break/continue (<= 12 statements); integer exponents are literals 0-4 or from {5..17,19,..,63,64} or a clamped expression; a third of the programs "
+          "define 1-2 helper functions first (1-3 scalar parameters, optional trailing defaults, small bodies; a helper may call the earlier one) "
+          "that expressions call with all or only the non-defaulted arguments; 3-12 argument vectors drawn from per-type boundary values (min, max, -1, 0, 1, sign and width boundaries, "
           "NaN/inf/-0) and random ones, called in sequence on one instance. Non-trivial = an accepted program containing an integer type of <= 32 bits "
           "or a cast, with >= 1 call on a boundary argument compared against the reference; distinct by script hash. "
           "TestC19NoCrash: token delete/duplicate/swap/replace/insert/truncate mutations of generated programs and of the repository's .arc examples and "
